@@ -297,6 +297,19 @@ def monitor_conc(pid, case, out):
                     return {"step": 0, "why": "concurrent Select: request that may not be forwarded received a remote node", "sig": "remote-not-allowed"}
                 if r["selep"] != e or r["id"] not in sc.candidates(e):
                     return {"step": 0, "why": "concurrent Select: remote node %r does not advertise %r" % (UH(r["id"]), UH(e)), "sig": "remote-invalid"}
+    if case.get("storm") and pid == "C15":
+        # selections only, from many goroutines, over a stable set: the rotation is one global sequence (every selection
+        # advances the cursor under the manager's lock), so the upstreams' totals differ by at most one
+        cnt = {}
+        for sels in out.get("tsels") or []:
+            for s in sels or []:
+                if s["sel"]["kind"] == "local":
+                    cnt[s["sel"]["u"]] = cnt.get(s["sel"]["u"], 0) + 1
+        reg = sc.reg.get(case["storm"], [])
+        tot = [cnt.get(u, 0) for u in reg]
+        if tot and max(tot) - min(tot) > 1:
+            return {"step": 0, "why": "%d concurrent selections over the stable set %s were distributed %s: not a rotation (every %d consecutive selections must return each upstream once)"
+                                      % (sum(tot), reg, dict(zip(reg, tot)), len(reg)), "sig": "fairness-concurrent"}
     bal = {b["e"]: sorted(b["ups"]) for b in out["final"]["bal"]}
     want = {e: sorted(l) for e, l in sc.reg.items() if l}
     if bal != want:
@@ -804,6 +817,20 @@ def run_property(ctx, pid, monitor, codes, what_conc):
         okcc = [(c, o) for c, o in zip(ccases, couts) if not o.get("panic") and o.get("final")]
         d = correspondence(pid, wd, [c for c, _ in okcc], [o for _, o in okcc], tag="c" + label, conc=True)
         conc_dis += [dict(x, label=label, cid=okcc[x["case"]][0]["id"]) for x in d if set(x["codes"]) & set(codes)]
+    # ---- selection storms (C15 only; monitor only): many goroutines select over a stable set
+    if 6 in codes:
+        storms = [{"id": "storm%d" % i, "local": local_spec(), "storm": H("e"),
+                   "ops": [A(1, "e"), A(2, "e"), A(3, "e")],
+                   "threads": [[S("e")] * (12000 if quick else 60000) for _ in range(6)]} for i in range(2 if quick else 6)]
+        souts, slog = run_conc(binary, wd, storms, tag="storm")
+        if souts is None:
+            conc_fail.append((storms[0], {"step": 0, "why": "selection storm aborted: " + ("; ".join(re.findall(r"(?m)^(?:fatal error:|panic:).*$", slog)[:3]) or slog[-400:]), "sig": "panic"}, "plain"))
+        else:
+            for c, o in zip(storms, souts):
+                f = monitor_conc(pid, c, o)
+                if f:
+                    conc_fail.append((dict(c, threads=[[S("e")] * 50 for _ in range(6)]), f, "plain"))
+                    break
     # ---- direct balancer mode (C15 only)
     bal_cases, bal_fail, bal_dis = [], [], []
     if 6 in codes:
